@@ -42,6 +42,21 @@ pub fn raw_linking(code: &str) -> &'static [&'static str] {
     }
 }
 
+/// extra number-like vocabulary that the spellers do not produce (fractions, plural ordinals, regional or tolerated
+/// spellings mentioned in the library documentation): generator material only
+pub fn extra_number_words(code: &str) -> &'static [&'static str] {
+    match code {
+        "en" => &["fifths", "thirds", "oneths", "twenty-fifths", "hundredths", "nought", "fourty", "o", "seconds", "halves"],
+        "fr" => &["unièmes", "cinquièmes", "seconde", "second", "premiers", "mil", "septante", "nonante", "huitante", "octante", "quatre-vingts", "cents"],
+        "es" => &["onceavo", "doceavo", "treceavos", "catorceavo", "quinceavo", "veintavo", "treintavos", "centavo", "centavos", "veintiunoavo", "primer", "tercer", "segundo", "segundos", "cienta", "millon", "veintidos"],
+        "pt" => &["segundo", "segundos", "bilhão", "bilhões", "biliões", "quatorze", "dezesseis", "uma", "duas", "meia"],
+        "it" => &["secondo", "secondi", "centesimi", "un", "una", "mezzo", "tré", "centuno", "bilione", "bilioni"],
+        "de" => &["zwo", "eine", "einen", "dreissig", "billion", "milliarden", "hundertste", "zweite", "siebte"],
+        "nl" => &["één", "biljoen", "miljardste", "honderdste", "achtste", "derde"],
+        _ => &[],
+    }
+}
+
 /// words the ambiguity annotators react to
 pub fn triggers(code: &str) -> &'static [&'static str] {
     match code {
@@ -129,6 +144,9 @@ impl Lexicon {
                     }
                 }
             }
+        }
+        for w in extra_number_words(code) {
+            nums.insert(w.to_string());
         }
         nums.remove(info.conj);
         let mut ords: BTreeSet<String> = BTreeSet::new();
